@@ -399,6 +399,33 @@ def doBhg (N D : Nat) (row col : Array Nat) (val y : Array Rat) (θ : Rat) (o : 
         cmpLists g.toList spec (maxR 1 (maxAbs spec) * (tol30 + M / two 44))
       s!"cmp={cmp} bh0={bh0}"
 
+/-- all cells of a tree -/
+def qtCells : QuadTree.Tree Rat → List (QuadTree.Cell Rat)
+  | .leaf b .. => [b]
+  | .node b _ _ nw ne sw se => b :: (qtCells nw ++ qtCells ne ++ qtCells sw ++ qtCells se)
+
+/-- some point within relative 2⁻⁴⁰ of (or exactly on) a cell boundary: with the non-dyadic default root the rounded
+    child boxes of the double computation need not meet exactly on the dividing lines (see Driver/C18) -/
+def fragileStructure (t : QuadTree.Tree Rat) (pts : List (Rat × Rat)) : Bool :=
+  let r : Rat := 1 / two 40
+  (qtCells t).any fun c =>
+    pts.any fun p =>
+      let sx := (absR c.x + c.hw + absR p.1) * r
+      let sy := (absR c.y + c.hh + absR p.2) * r
+      let near (a b s : Rat) : Bool := decide (absR (a - b) ≤ s)
+      near p.1 (c.x - c.hw) sx || near p.1 (c.x + c.hw) sx || near p.2 (c.y - c.hh) sy || near p.2 (c.y + c.hh) sy
+
+/-- the Barnes–Hut gradient at the map `y` depends on a decision (which child a point falls into, whether a cell is
+    summarised) that is within rounding of a tie -/
+def bhFragile (N : Nat) (θ : Rat) (y : Array Rat) : Bool :=
+  let pts := (List.range N).map fun n => (y.getD (2 * n) 0, y.getD (2 * n + 1) 0)
+  let parr := pts.toArray
+  let data : Nat → Rat × Rat := fun i => parr.getD i (0, 0)
+  let root := QuadTree.rootCell eps1em5 pts
+  match QuadTree.buildIn data (QuadTree.fuelBound root pts + 4) root (List.range N) with
+  | none => true
+  | some t => fragileStructure t pts || (List.range N).any fun n => fragileCrit data θ (maxAbs y.toList) n t
+
 /-! ### `TSNE::run`, observed through its progress log -/
 
 def eps9 : Rat := (4835703278458517 : Rat) / (4835703278458516698824704 : Rat)   -- the double nearest to 1e-9
@@ -429,9 +456,70 @@ def unfxA (a : Array Fx) : Array Rat := a.map (·.v)
 def lnFx (a : Fx) : Fx := Fx.of (lnR a.v)
 def matFx (N D : Nat) (a : Array Rat) : Mat N D Fx := fun n d => Fx.of (a.getD (n.1 * D + d.1) 0)
 
+/-! #### the per-iteration observer: every step of the real run against the SPECIFIED update rule
+
+`traj` is the map after iterations `0..T` (observer hook of `run`, called right after `zeroMean(Y)`).  The replay is
+*teacher forced*: the gradient of iteration `t` is evaluated at the implementation's own `Y_{t-1}` (the initial map for
+`t = 0` is the replayed Gaussian stream times `1e-4`), the velocity and the gains are carried by the replay — their
+error contracts with the momentum, so nothing is amplified and the tolerance stays tight over hundreds of iterations.
+Constants are written down here (12 through iteration 250, momentum .5 through 250 then .8, `Sched.spec`), not read from
+the translation: a `BAD` is a failing input of the specification, not a model/implementation disagreement. -/
+def specExag (t : Nat) : Rat := if t ≤ 250 then 12 else 1
+def specMomentum (t : Nat) : Rat := if t ≤ 250 then 1 / 2 else 4 / 5
+
+def parseTraj (s : String) : Option (List (Array Rat)) := allSome ((splitNonEmpty s ";").map ratsA)
+
+structure StepSt where
+  yPrev : Array Fx
+  uY : Array Fx
+  gains : Array Fx
+  bad : Option String := none
+  frag : Option Nat := none
+  done : Nat := 0
+
+/-- the exact gradient formula (true squared distances) on flat `Fx` buffers -/
+def exactGradFx (N dim : Nat) (pA y : Array Fx) : Array Fx :=
+  let Ym : Mat N dim Fx := fun n d => y.getD (n.1 * dim + d.1) 0
+  let P : Mat N N Fx := fun n m => pA.getD (n.1 * N + m.1) 0
+  let ddY : Array Fx := ((List.finRange N).flatMap fun n => (List.finRange N).map fun m => sqEuclid Ym n m).toArray
+  let DDy : Mat N N Fx := fun n m => ddY.getD (n.1 * N + m.1) 0
+  let grad := exactGradientOf DDy P Ym
+  ((List.finRange N).flatMap fun n => (List.finRange dim).map fun d => grad n d).toArray
+
+def stepCheck (N dim : Nat) (g : Array Rat) (traj : List (Array Rat)) (grad : Nat → Array Fx → Except String (Array Fx)) :
+    String :=
+  let nd := N * dim
+  let y0 : Array Fx := g.map fun v => Fx.of (v / 10000)
+  let init : StepSt := { yPrev := y0, uY := g.map (fun _ => Fx.of 0), gains := g.map (fun _ => Fx.of 1) }
+  let st := traj.zipIdx.foldl (fun (s : StepSt) (yt, t) =>
+    if s.bad.isSome || s.frag.isSome then s else
+    if yt.size ≠ nd then { s with bad := some s!"it={t}:observed-map-of-size-{yt.size}" } else
+    match grad t s.yPrev with
+    | .error "near-tie" => { s with frag := some t }
+    | .error e => { s with bad := some s!"it={t}:gradient-not-evaluated:{e}" }
+    | .ok dC =>
+      let o' := updateStepWith Sched.spec N dim dC ⟨s.yPrev, s.uY, s.gains, Fx.of (specMomentum t)⟩
+      -- a sign test of the gains rule within rounding of a tie: the replay cannot know which way the doubles went
+      let mdC := maxAbs (unfxA dC).toList
+      let muY := maxAbs (unfxA s.uY).toList
+      let tie := (List.range nd).any fun i =>
+        let d := absR (dC.getD i 0).v
+        let u := absR (s.uY.getD i 0).v
+        decide (d ≤ mdC / two 30) || (decide (u ≠ 0) && decide (u ≤ muY / two 30))
+      if tie then { s with frag := some t } else
+      let ym := unfxA o'.Y
+      let tol := maxAbs (unfxA o'.uY).toList / two 30 + maxAbs yt.toList / two 46
+      match (List.range nd).find? fun i => decide (absR (ym.getD i 0 - yt.getD i 0) > tol) with
+      | some i => { s with bad := some s!"it={t}:cell={i}:impl={showRat (yt.getD i 0)}:specified={showRat (rnd (ym.getD i 0))}" }
+      | none => { s with yPrev := fxA yt, uY := o'.uY, gains := o'.gains, done := t + 1 }) init
+  match st.bad, st.frag with
+  | some b, _ => "BAD:" ++ b
+  | none, some t => s!"ok:{st.done}:near-tie-at-{t}"
+  | none, none => s!"ok:{st.done}"
+
 /-- the part of `run` after the conditional similarities is evaluated in the rounded scalar `Fx` (grid 2⁻¹²⁸): exact
     rationals grow without bound through the divisions of 50 gradient steps -/
-def doRun (N D dim : Nat) (x g : Array Rat) (perp θ : Rat) (snapsS : Option String) : String :=
+def doRun (N D dim : Nat) (x g : Array Rat) (perp θ : Rat) (snapsS trajS : Option String) : String :=
   match snapsS >>= parseSnaps with
   | none => "cmp=BAD:unparsable-observation dyn=BAD:unparsable-observation"
   | some snaps =>
@@ -490,7 +578,15 @@ def doRun (N D dim : Nat) (x g : Array Rat) (perp θ : Rat) (snapsS : Option Str
         | none => "skip"
         | some sn => if t1 > 60 then "skip" else if close (unfxA fin.Y) sn.Y (yTol sn.Y) then "ok" else
             s!"BAD:it={t1}:impl={String.intercalate "," (sn.Y.toList.map showRat)}:model={String.intercalate "," ((unfxA fin.Y).toList.map showRat)}"
-      s!"cmp={match bad with | none => s!"ok:E0:A{snaps.length}" | some b => "BAD:" ++ b} dyn={dyn} spec={match specBad with | none => "ok" | some b => "BAD:" ++ b}"
+      let step := match trajS with
+        | none => "skip"
+        | some ts => match parseTraj ts with
+          | none => "BAD:unparsable-trajectory"
+          | some traj =>
+            let p12 : Array Fx := pSpecA.map fun v => Fx.of (v * 12)
+            let p1 : Array Fx := pSpecA.map Fx.of
+            stepCheck N dim g traj fun t y => .ok (exactGradFx N dim (if specExag t = 12 then p12 else p1) y)
+      s!"cmp={match bad with | none => s!"ok:E0:A{snaps.length}" | some b => "BAD:" ++ b} dyn={dyn} spec={match specBad with | none => "ok" | some b => "BAD:" ++ b} step={step}"
     else
       let Kn := neighbourCount perp.num.toNat perp.den
       let Kspec := (3 * perp.num.toNat) / perp.den
@@ -546,7 +642,34 @@ def doRun (N D dim : Nat) (x g : Array Rat) (perp θ : Rat) (snapsS : Option Str
               match evaluateErrorBH lnFx (Fx.of fltMin) (Fx.of eps1em5) (Fx.of θ) (fuelOf sn.Y) N cs (fxA sn.Y) with
               | .error e => some s!"it={sn.it}:model-{showErr e}"
               | .ok Cm => cmpC sn.it sn.C Cm.v
-        s!"cmp={match bad with | none => s!"ok:E0:A{snaps.length}" | some b => "BAD:" ++ b} dyn={dyn} K={Kn} spec={match specBad with | none => "ok" | some b => "BAD:" ++ b}"
+        -- per-iteration observation.  θ ≤ 2⁻²⁰: the specified step is the EXACT gradient formula on the specified joint
+        -- distribution (`step`, a failing input).  Larger θ: the step of the model of `computeGradient` (`stepm`, a
+        -- model/implementation correspondence)
+        let stepS : String := match trajS with
+          | none => "step=skip"
+          | some ts =>
+            if dim ≠ 2 then "step=skip" else
+            if Kn ≠ Kspec then "step=skip" else
+            match parseTraj ts, symmetrizeCsr N c0 with
+            | none, _ => "step=BAD:unparsable-trajectory"
+            | _, .error e => s!"step=skip:{showErr e}"
+            | some traj, .ok sj =>
+              let sn0 := sj.normalise
+              if decide (θ ≤ 1 / two 20) then
+                let dense := csrDense N sn0
+                let p12 : Array Fx := dense.map fun v => Fx.of (v * 12)
+                let p1 : Array Fx := dense.map Fx.of
+                "step=" ++ stepCheck N dim g traj fun t y => .ok (exactGradFx N dim (if specExag t = 12 then p12 else p1) y)
+              else
+                let cs (f : Rat) : Csr Fx := ⟨sn0.rowP, sn0.colP, sn0.valP.map fun v => Fx.of (v * f)⟩
+                let c12 := cs 12
+                let c1 := cs 1
+                "stepm=" ++ stepCheck N dim g traj fun t y =>
+                  if bhFragile N θ (unfxA y) then .error "near-tie" else
+                  match bhGradient (fuelOf (unfxA y)) (Fx.of eps1em5) (Fx.of θ) N dim (if specExag t = 12 then c12 else c1) y with
+                  | .error e => .error (showErr e)
+                  | .ok dC => .ok dC
+        s!"cmp={match bad with | none => s!"ok:E0:A{snaps.length}" | some b => "BAD:" ++ b} dyn={dyn} K={Kn} spec={match specBad with | none => "ok" | some b => "BAD:" ++ b} {stepS}"
 
 /-! ### public API smoke (test level) -/
 def doApi (N dim : Nat) (labels : Array Nat) (o : Option (Array Rat)) : String :=
@@ -606,7 +729,7 @@ def answer (line : String) : String :=
     | some r, some y, some θ => doBhg N D r ((nats "col").getD #[]) ((rats "val").getD #[]) y θ (rats "o.dC")
     | _, _, _ => "bad-case"
   | "run" => match rats "X", rats "g", field? fs "perp" >>= parseRat, field? fs "theta" >>= parseRat with
-    | some x, some g, some perp, some θ => doRun N D (nat "dim") x g perp θ (field? fs "o.snaps")
+    | some x, some g, some perp, some θ => doRun N D (nat "dim") x g perp θ (field? fs "o.snaps") (field? fs "o.traj")
     | _, _, _, _ => "bad-case"
   | "api" => doApi N (nat "dim") ((nats "labels").getD #[]) (rats "o.Y")
   | _ => "bad-topic"
